@@ -689,7 +689,9 @@ def _topk_case(ck, d, task, k, verbose=False):
     ck.count(f"topk:outcome:{res['outcome']}")
     ck.count("topk:" + ("k<n" if k < n else "k>=n"))
     dis = None
-    if res["outcome"] == "ok":
+    if res["outcome"] == "ok" and not all(np.isfinite(res["rec"].member_loss.get(i, np.nan)) for i in range(n)):
+        ck.count("topk:non-finite-member-loss(model not asked)")
+    elif res["outcome"] == "ok":
         losses = [res["rec"].member_loss[i] for i in range(n)]
         def on_reply(rep, case=case, res=res):
             dis = None
@@ -714,7 +716,9 @@ def _topk_case(ck, d, task, k, verbose=False):
                 f"TopKSelector: {clause} fails", case, detail)
 
     spec = [(c, dt) for c, dt in fails if c in _TOPK_CLAUSES]
-    sendable = res["outcome"] == "ok" and all(isinstance(i, (int, np.integer)) and i >= 0 for i in res["indices"])
+    sendable = (res["outcome"] == "ok" and all(isinstance(i, (int, np.integer)) and i >= 0 for i in res["indices"])
+                and all(np.isfinite(float(x)) for x in res["weights"])
+                and all(np.isfinite(res["rec"].member_loss.get(i, np.nan)) for i in range(n)))
     if sendable:
         def on_check(rep, spec=spec):
             ck.count(f"topk:verified-checker:{'pass' if rep['spec'] else 'fail'}")
